@@ -80,15 +80,25 @@ Qed.
 (** ** the four [*_ray*] functions: their reported origin error is non-negative, so the three facts apply *)
 Lemma gamma3_R_pos : 0 <= @ngamma R _ 3.
 Proof. left. apply gamma_pos. lia. Qed.
+Lemma gamma4_R_pos : 0 <= @ngamma R _ 4.
+Proof. left. apply gamma_pos. lia. Qed.
+(** [mul3x3_abs] scaled by a non-negative factor is non-negative *)
+Lemma abs3_err_nonneg (m : M) (x y z g : R) : 0 <= g ->
+  let e := vscale (mul3x3_abs m x y z) g in 0 <= vx e /\ 0 <= vy e /\ 0 <= vz e.
+Proof.
+  intros Hg. unfold mul3x3_abs, vscale. cbn [vx vy vz]. rnum.
+  repeat split; apply Rmult_le_pos; try assumption;
+    repeat apply Rplus_le_le_0_compat; apply Rabs_pos.
+Qed.
 Lemma err_pt_nonneg (m : M) (p : V) : nonneg3 (snd (pt_with_error m p)).
-Proof. unfold pt_with_error. cbn [snd]. apply abs_err_nonneg. apply gamma3_R_pos. Qed.
+Proof. unfold pt_with_error. cbn [snd]. apply abs_err_nonneg. apply gamma4_R_pos. Qed.
 Lemma err_prop_nonneg (m : M) (p e : V) : nonneg3 (snd (pt_propagate_error m p e)).
 Proof.
   unfold pt_propagate_error, pt_with_error. cbn [snd].
-  pose proof gamma3_R_pos as Hg.
-  destruct (abs_err_nonneg m (vx p) (vy p) (vz p) (ngamma 3) Hg) as (A1 & A2 & A3).
+  pose proof gamma4_R_pos as Hg. pose proof gamma3_R_pos as Hg3.
+  destruct (abs_err_nonneg m (vx p) (vy p) (vz p) (ngamma 4) Hg) as (A1 & A2 & A3).
   assert (Hg1 : 0 <= (@n1 R _ + @ngamma R _ 3)%num) by (change (0 <= 1 + @ngamma R _ 3); lra).
-  destruct (abs_err_nonneg m (vx e) (vy e) (vz e) (n1 + ngamma 3)%num Hg1) as (B1 & B2 & B3).
+  destruct (abs3_err_nonneg m (vx e) (vy e) (vz e) (n1 + ngamma 3)%num Hg1) as (B1 & B2 & B3).
   unfold nonneg3, vadd. cbn [vx vy vz]. rnum. repeat split; lra.
 Qed.
 
